@@ -464,6 +464,16 @@ func canonDocs(errored bool, docs []any) string {
 	return b.String()
 }
 
+// canonErr is canonDocs with the error's text: what an error says (message, line and column) is part of the
+// result of the call and must not depend on the instance's past either.
+func canonErr(err error, docs []any) string {
+	c := canonDocs(err != nil, docs)
+	if err != nil {
+		c = "error(" + err.Error() + ")" + c[len("error"):]
+	}
+	return c
+}
+
 // exec runs one operation in world w. The caller's input buffer is overwritten afterwards.
 func (o *op07) exec(w *world07) (r *res07) {
 	r = &res07{}
@@ -503,7 +513,7 @@ func (o *op07) exec(w *world07) (r *res07) {
 		} else if err == nil {
 			docs = []any{v}
 		}
-		r.Canon = canonDocs(err != nil, docs)
+		r.Canon = canonErr(err, docs)
 		r.Retained = docs
 		r.Volatile = o.Reuse
 	}
@@ -604,7 +614,7 @@ func (o *op07) exec(w *world07) (r *res07) {
 		} else {
 			err = w.ojV.ValidateReader(rd)
 		}
-		r.Canon = canonDocs(err != nil, nil)
+		r.Canon = canonErr(err, nil)
 		return
 	case "oj.Tokenizer", "sen.Tokenizer":
 		h := &panickyHandler{builderHandler: newBuilderHandler(), at: o.PanicAt, r: r}
@@ -626,7 +636,7 @@ func (o *op07) exec(w *world07) (r *res07) {
 		if err == nil && h.berr != nil {
 			err = h.berr
 		}
-		r.Canon = canonDocs(err != nil, h.docs)
+		r.Canon = canonErr(err, h.docs)
 		r.Retained = h.docs
 		return
 	}
@@ -639,7 +649,7 @@ func (o *op07) exec(w *world07) (r *res07) {
 			text = sw.Buf
 			r.Writer = sw
 		}
-		r.Canon = canonDocs(err != nil, []any{string(text)})
+		r.Canon = canonErr(err, []any{string(text)})
 		if sw == nil {
 			r.Retained = []any{string(text)}
 		}
